@@ -115,8 +115,9 @@ class HostKindMonitor(Monitor):
         return [core]
 
     def after_call(self, core_before, core_after, callee, node, eng):
-        # a kind credit does not survive the activation that produced it
-        return (core_after[0], False, core_after[2], core_after[3])
+        # a kind credit produced inside the callee does not leak to the caller; the caller's own credit survives a call
+        # that neither stored a host (which consumes it) nor is the activation that produced it
+        return (core_after[0], bool(core_before[1] and core_after[1]), core_after[2], core_after[3])
 
     def on_return(self, core, stmt, value, eng, activation):
         engine, act = eng
